@@ -61,7 +61,8 @@ class Case:
 
 
 def make_reference(case: Case, seed: int, n_genes: int, sec_near_start: float = 0.0,
-                   context: float = 0.0, sec_lys: float = 0.7, start_context: float = 0.5):
+                   context: float = 0.0, sec_lys: float = 0.7, start_context: float = 0.5,
+                   widen_genes: float = 0.0):
     """fake genome + annotation (+ proteome by translation), written with the
     repository's writers as util/fuzz_test.py does."""
     _imports()
@@ -71,6 +72,20 @@ def make_reference(case: Case, seed: int, n_genes: int, sec_near_start: float = 
     from Bio.Seq import Seq
     random.seed(seed)
     genome, anno = fake.fake_genome_and_annotation(n_genes)
+    if widen_genes > 0:
+        # a gene record wider than its listed transcript (other isoforms not in the annotation):
+        # gene coordinates and transcript coordinates then differ by more than the introns
+        from moPepGen.SeqFeature import FeatureLocation
+        wrng = random.Random(seed ^ 0x61DE)
+        for gid, gm in anno.genes.items():
+            if wrng.random() < widen_genes:
+                n = len(genome[gm.chrom].seq)
+                lo = max(0, int(gm.location.start) - wrng.randint(0, 9))
+                hi = min(n, int(gm.location.end) + wrng.randint(0, 9))
+                if (lo, hi) != (int(gm.location.start), int(gm.location.end)):
+                    gm.location = FeatureLocation(seqname=gm.location.seqname, start=lo, end=hi,
+                                                  strand=gm.location.strand)
+                    case.meta.setdefault('widened_genes', []).append(gid)
     if sec_near_start > 0:
         prng = random.Random(seed ^ 0x5EC)
         for tx_id in list(anno.transcripts.keys()):
